@@ -119,6 +119,17 @@ pub(crate) fn tombstone_set_no_resurrection_history() {
     kani::assert(!v.as_reveal_ref().0.has(x) && v.as_reveal_ref().1.has(x), "C05:deleted_item_never_reappears");
 }
 
+/// C04: lattice_from keeps live set and tombstones apart (a representation change must not change the value)
+#[kani::proof] #[kani::unwind(8)]
+pub(crate) fn tombstone_set_lattice_from() {
+    use lattices::LatticeFrom;
+    let a = sym_ts();
+    let f: Ts = LatticeFrom::lattice_from(SetUnionWithTombstones::new(a.0, a.1));
+    let (live, tomb) = f.into_reveal();
+    kani::assert(same_set(&live, &a.0), "C04:tombstone_set_lattice_from_keeps_live_items");
+    kani::assert(same_set(&tomb, &a.1), "C04:tombstone_set_lattice_from_keeps_tombstones");
+}
+
 // tombstone MAP variant: keys over a 4-value domain, values Max<u8> (0 = bottom = invisible)
 type Tm = MapUnionWithTombstones<TinyMap<Max<u8>>, TinySet>;
 fn small_map(max: u8) -> TinyMap<Max<u8>> {
@@ -182,10 +193,9 @@ pub(crate) fn atomize_set_union() {
     kani::assert(same_set(re.as_reveal_ref(), &a), "C06:atoms_merge_back_to_the_value");
 }
 
-/// WithBot / WithTop wrappers around SetUnion
-#[kani::proof] #[kani::unwind(8)]
-pub(crate) fn atomize_with_bot_top() {
-    let a = sym_tiny2();
+/// WithBot / WithTop wrappers around SetUnion (sets of <= `max` elements)
+fn atomize_with_bot_of(max: u8) {
+    let a = small_set(max);
     let some: bool = kani::any();
     let wb: WithBot<SetUnion<TinySet>> = WithBot::new(if some { Some(SetUnion::new(a)) } else { None });
     let was_bot = wb.is_bot();
@@ -194,7 +204,10 @@ pub(crate) fn atomize_with_bot_top() {
     for atom in wb.atomize() { kani::assert(!atom.is_bot(), "C06:no_bottom_atom"); re.merge(atom); count += 1; }
     kani::assert((count == 0) == was_bot, "C06:no_atoms_iff_bottom");
     kani::assert(re == WithBot::new(if some { Some(SetUnion::new(a)) } else { None }), "C06:atoms_merge_back_to_the_value");
-
+}
+fn atomize_with_top_of(max: u8) {
+    let a = small_set(max);
+    let some: bool = kani::any();
     let wt: WithTop<SetUnion<TinySet>> = WithTop::new(if some { Some(SetUnion::new(a)) } else { None });
     let was_bot = wt.is_bot();
     let mut re: WithTop<SetUnion<TinySet>> = Default::default();
@@ -203,13 +216,20 @@ pub(crate) fn atomize_with_bot_top() {
     kani::assert((count == 0) == was_bot, "C06:no_atoms_iff_bottom");
     kani::assert(re == WithTop::new(if some { Some(SetUnion::new(a)) } else { None }), "C06:atoms_merge_back_to_the_value");
 }
+#[kani::proof] #[kani::unwind(8)] pub(crate) fn deep_atomize_with_bot_one() { atomize_with_bot_of(1) }   // > 40 min of CBMC: in NO tier
+#[kani::proof] #[kani::unwind(8)] pub(crate) fn atomize_with_top_one() { atomize_with_top_of(1) }
+/// two-element instances: > 30 min of CBMC each (Box<dyn Iterator> + flat_map); kept for the record, in NO tier
+#[kani::proof] #[kani::unwind(8)] pub(crate) fn deep_atomize_with_bot_two() { atomize_with_bot_of(2) }
+#[kani::proof] #[kani::unwind(8)] pub(crate) fn deep_atomize_with_top_two() { atomize_with_top_of(2) }
 
 /// MapUnion<key -> SetUnion>: atoms are single (key, singleton) entries
-#[kani::proof] #[kani::unwind(8)]
-pub(crate) fn atomize_map_union() {
+#[kani::proof] #[kani::unwind(8)] pub(crate) fn deep_atomize_map_union_one() { atomize_map_union_of(1) }   // > 40 min of CBMC: in NO tier
+/// > 30 min of CBMC; kept for the record, in NO tier
+#[kani::proof] #[kani::unwind(8)] pub(crate) fn deep_atomize_map_union_two() { atomize_map_union_of(2) }
+fn atomize_map_union_of(max: u8) {
     let mut m = TinyMap::<SetUnion<TinySet>>::default();
     let k: u8 = kani::any();
-    let a = small_set(2);
+    let a = small_set(max);
     if kani::any() { m.insert(k, SetUnion::new(a)); }
     let had = m.n == 1;
     let v = MapUnion::new(m);
@@ -226,9 +246,58 @@ pub(crate) fn atomize_map_union() {
     }
 }
 
-/// UnionFind: atoms are the non-trivial links; merging them back gives the same partition
+/// MapUnion::atomize against the Atomize CONTRACT of the value type (modular): `HVal` is a havoc value lattice whose atom iterator
+/// yields its atoms in order and answers ANY `size_hint` the Iterator contract allows (lower <= remaining <= upper).
+/// Expected: for every entry (k, v) and every atom a of v, in order, exactly one atom {k: a}.
+#[derive(Clone, Copy, Default, Debug)]
+pub(crate) struct HVal { n: usize, ids: [u8; 2] }
+#[derive(Clone, Copy, Debug, PartialEq)]
+pub(crate) struct HAtom(u8);
+impl IsBot for HAtom { fn is_bot(&self) -> bool { false } }
+impl Merge<HAtom> for HVal { fn merge(&mut self, other: HAtom) -> bool { if self.n < 2 { self.ids[self.n] = other.0; self.n += 1; true } else { false } } }
+impl lattices::LatticeFrom<HAtom> for HVal { fn lattice_from(other: HAtom) -> Self { HVal { n: 1, ids: [other.0, 0] } } }
+pub(crate) struct HIter { v: HVal, next: usize }
+impl Iterator for HIter {
+    type Item = HAtom;
+    fn next(&mut self) -> Option<HAtom> { if self.next < self.v.n { self.next += 1; Some(HAtom(self.v.ids[self.next - 1])) } else { None } }
+    fn size_hint(&self) -> (usize, Option<usize>) {
+        let rem = self.v.n - self.next;
+        let lo: usize = kani::any();
+        kani::assume(lo <= rem);
+        let hi: Option<usize> = if kani::any() { None } else { let h: usize = kani::any(); kani::assume(h >= rem && h <= 4); Some(h) };
+        (lo, hi)
+    }
+}
+impl Atomize for HVal { type Atom = HAtom; type AtomIter = HIter; fn atomize(self) -> HIter { HIter { v: self, next: 0 } } }
+
 #[kani::proof] #[kani::unwind(8)]
-pub(crate) fn atomize_union_find() {
+pub(crate) fn atomize_map_union_any_value_iterator() {
+    let mut m = TinyMap::<HVal>::default();
+    let (k1, k2): (u8, u8) = (kani::any(), kani::any());
+    kani::assume(k1 != k2);
+    let (v1, v2): (HVal, HVal) = (HVal { n: kani::any(), ids: kani::any() }, HVal { n: kani::any(), ids: kani::any() });
+    kani::assume(v1.n <= 2 && v2.n <= 2);
+    let entries: usize = kani::any();
+    kani::assume(entries <= 2);
+    if entries >= 1 { m.insert(k1, v1); }
+    if entries >= 2 { m.insert(k2, v2); }
+    // expected atoms, in order
+    let mut exp: [(u8, u8); 4] = [(0, 0); 4];
+    let mut ne = 0;
+    if entries >= 1 { let mut i = 0; while i < v1.n { exp[ne] = (k1, v1.ids[i]); ne += 1; i += 1; } }
+    if entries >= 2 { let mut i = 0; while i < v2.n { exp[ne] = (k2, v2.ids[i]); ne += 1; i += 1; } }
+    let mut got = 0;
+    for atom in MapUnion::new(m).atomize() {
+        let lattices::collections::SingletonMap(k, a) = atom.into_reveal();
+        kani::assert(got < ne && (k, a.0) == exp[got], "C06:map_union_atoms_are_exactly_key_times_value_atoms");
+        got += 1;
+    }
+    kani::assert(got == ne, "C06:map_union_yields_every_value_atom_under_its_key");
+}
+
+/// UnionFind: atoms are the non-trivial links; merging them back gives the same partition.  > 30 min of CBMC: in NO tier
+#[kani::proof] #[kani::unwind(8)]
+pub(crate) fn deep_atomize_union_find() {
     type Uf = UnionFind<TinyMap<Cell<u8>>>;
     let mut uf: Uf = UnionFind::new(TinyMap::default());
     let (a, b): (u8, u8) = (kani::any(), kani::any());
@@ -294,7 +363,7 @@ impl cc_traits::Len for TinyPairs { fn len(&self) -> usize { self.n } }
 
 /// KeyedBimorphism (value bimorphism = cartesian product) against its model: keys = common keys, value = product of values
 #[kani::proof] #[kani::unwind(8)]
-pub(crate) fn keyed_bimorphism_is_keywise() {
+pub(crate) fn deep_keyed_bimorphism_is_keywise() {   // 30 min of CBMC on a quiet machine: in NO tier
     let mut ma = TinyMap::<SetUnion<TinySet>>::default();
     let mut mb = TinyMap::<SetUnion<TinySet>>::default();
     let (ka, kb): (u8, u8) = (kani::any(), kani::any());
